@@ -10,3 +10,8 @@ def run(ctx, rep):
     cond.rule_refine_fresh(mod, rep)
     from ..rules import misc
     misc.rule_dense_stride(mod, rep)
+    import re
+    from ..rules import more2
+    more2.rule_arg_names(mod, rep, lambda f: re.match(r"p[sdcz]gssvx$|[sdcz]gsrfs$|[sdcz]gstrs$|sp_[sdcz]", f.name) is not None, floor=1)
+    from ..rules import more3
+    more3.rule_cursor_step(mod, rep)
